@@ -45,7 +45,13 @@ def make_spec():
         return {"attr": attr, "kind": kind, "name": name, "label": None, "state": None, "perm": None, "timeout": None, "enabled": True,
                 "elements": [{"attr": f"e{i}", "name": f"{name}_E{i}", "label": None, "default": None, "enabled": True} for i in range(els)]}
     return {"name": "CAM", "levels": [{"groups": [{"attr": "g", "name": "G", "enabled": True,
-                                                   "vectors": [vec("b", "BLOB", "IMG", 3), vec("t", "Text", "TXT", 1)]}]}]}
+                                                   "vectors": [vec("b", "BLOB", "IMG", 4), vec("t", "Text", "TXT", 1)]}]}]}
+
+
+def _hide_late_element(spec):
+    """The fourth BLOB element does not exist for clients at first: the driver enables it later."""
+    spec["levels"][0]["groups"][0]["vectors"][0]["elements"][3]["enabled"] = False
+    return spec
 
 
 def payload(rng, n):
@@ -102,7 +108,7 @@ async def session(ctx, case):
     try:
         stats = bufmon.guard_process(patch)
         router = Router()
-        spec = make_spec()
+        spec = _hide_late_element(make_spec())
         hw = {"frame": None, "reads": 0}
 
         def leaf_hook(ns, defs):
@@ -290,6 +296,24 @@ async def session(ctx, case):
                     if p:
                         ctx.violate(p[0] + ":republished-object", p[1], case)
                         return False
+                    if direction == "d2c-client" and not (threshold_link and big):
+                        # an element the driver enables only now; the client learns about it from the answer to its next
+                        # getProperties (a poll) - no delProperty in between - and must then receive its frames
+                        late = D.element_of(drv, "g", "b", "e3")
+                        late.enabled = True
+                        client.handshake()
+                        await sess.quiesce()
+                        data4 = b"late" + data[:40]
+                        late.value = values.BLOB(data4, ".late")
+                        if await sess.quiesce() < 0:
+                            ctx.violate("stall:after-late-element", "loop did not quiesce", case)
+                            return False
+                        gotl = fullstack.norm_blob(stack.client_view(client).get("CAM", {}).get("IMG", {}).get("elements", {}).get("IMG_E3", (None, None))[1])
+                        ctx.count("blobs_on_an_element_enabled_later")
+                        if gotl != ("blob", data4, ".late"):
+                            ctx.violate("blob-on-an-element-enabled-later-lost", f"client holds {describe(gotl)} for the element the driver enabled after the "
+                                                                               f"first definition (re-defined in answer to a getProperties)", case)
+                            return False
                     # the hardware-backed element: published by a state change, never assigned
                     data3 = bytes(reversed(data[:64])) + b"hw"
                     hw["frame"] = values.BLOB(data3, ".hw")
@@ -330,6 +354,7 @@ async def session(ctx, case):
         if snoop is not None:
             sv = stack.client_view(snoop).get("CAM", {}).get("IMG", {}).get("elements", {})
             for k, e in (("IMG_E0", el), ("IMG_E1", D.element_of(drv, "g", "b", "e1")), ("IMG_E2", D.element_of(drv, "g", "b", "e2"))):
+                # (IMG_E3, enabled later, is compared above through the connected client)
                 have, dev = fullstack.norm_blob(sv.get(k, (None, None))[1]), fullstack.norm_blob(e._value)
                 ctx.count("snooping_client_blob_checks")
                 if have != dev:
